@@ -21,6 +21,7 @@ pub struct IoStats {
     pub pending: u64,
     pub seek_err: u64,
     pub zero_write: u64,
+    pub partial_then_error: u64,
 }
 
 #[derive(Debug)]
@@ -289,7 +290,21 @@ impl tokio::io::AsyncRead for SimIo {
                 this.sync();
                 Poll::Ready(Ok(()))
             }
-            Err(e) => Poll::Ready(Err(e)),
+            Err(e) => {
+                // a source may have delivered part of the data when it hits the error (a decoding
+                // reader, say): the bytes are in the caller's buffer all the same
+                let rem = self.remaining().min(cap);
+                if rem > 0 && self.buffered == 0 && self.rng.below(3) == 0 {
+                    let n = 1 + self.rng.usize_below(rem);
+                    let start = self.pos;
+                    self.pos += n;
+                    self.stats.partial_then_error += 1;
+                    let this = &*self;
+                    buf.put_slice(&this.data[start..start + n]);
+                    this.sync();
+                }
+                Poll::Ready(Err(e))
+            }
         }
     }
 }
@@ -331,6 +346,29 @@ impl tokio::io::AsyncWrite for SimIo {
             }
             Err(e) => Poll::Ready(Err(e)),
         }
+    }
+    fn poll_write_vectored(mut self: Pin<&mut Self>, cx: &mut Context<'_>, bufs: &[IoSlice<'_>]) -> Poll<io::Result<usize>> {
+        if self.draw_pending() {
+            cx.waker().wake_by_ref();
+            return Poll::Pending;
+        }
+        let total: usize = bufs.iter().map(|b| b.len()).sum();
+        match self.do_write(total) {
+            Ok(n) => {
+                let mut left = n;
+                for b in bufs {
+                    let k = b.len().min(left);
+                    self.written.extend_from_slice(&b[..k]);
+                    left -= k;
+                }
+                self.sync();
+                Poll::Ready(Ok(n))
+            }
+            Err(e) => Poll::Ready(Err(e)),
+        }
+    }
+    fn is_write_vectored(&self) -> bool {
+        true
     }
     fn poll_flush(mut self: Pin<&mut Self>, cx: &mut Context<'_>) -> Poll<io::Result<()>> {
         if self.draw_pending() {
@@ -433,6 +471,9 @@ impl futures_core::Stream for SimItems {
             self.none_polls += 1;
         }
         Poll::Ready(r)
+    }
+    fn size_hint(&self) -> (usize, Option<usize>) {
+        (self.items.len(), Some(self.items.len()))
     }
 }
 
